@@ -90,7 +90,25 @@ theorem step_St (f : Nat) (hE : PE f) (hV : PV f) : PSt (f + 1) := by
     intro v σ1 S hle hst _ hv
     replace henv := envOk_mono hle henv
     exact outP_pure _ _ _ _ _ _ hst ⟨hv, envOkG_insert env g x v t henv hv, gwf_cons g x t hg (tyS_wf lp ret g e t hte)⟩
-  | destruct xs e => simp only [tySStmt] at ht; cases ht
+  | destruct xs e =>
+    simp only [tySStmt] at ht
+    obtain ⟨te, hte, h2⟩ := bind_ok ht
+    have wte := tyS_wf lp ret g e te hte
+    split at h2
+    · rename_i ts
+      split at h2
+      · cases h2
+        simp only [evalStmt]
+        apply outP_bind lp ret S (fun S' v => VT S' (.tup ts) v) _ _ _ σ (hV lp ret S g env e (.tup ts) σ henv hg hr hst hte)
+        intro v σ1 S hle hst _ hv
+        replace henv := envOk_mono hle henv
+        obtain ⟨vs, rfl, hl⟩ := vt_tuple hv
+        simp only []
+        have wts : wfL ts = true := by simpa [wf] using wte
+        obtain ⟨h1, h2⟩ := envOkG_bindAll xs ts vs env g henv hg wts hl.1 hl.2
+        exact outP_pure _ _ _ _ _ _ hst ⟨hv, h1, h2⟩
+      · cases h2
+    all_goals cases h2
   | fndecl x ps rt body =>
     simp only [tySStmt] at ht
     split at ht
@@ -439,12 +457,41 @@ theorem step_WS (f : Nat) (hE : PE f) (hB : PB f) (hWS : PWS f) : PWS (f + 1) :=
     · simp only [if_true]; exact hWS lp ret S g env x ty e body T1 T σ2 henv hg hr hst wty hte ht
   · simp only [hm, Bool.false_eq_true, if_false]; exact outP_pure _ _ _ _ _ _ hst vt_unit
 
+theorem step_Fo (f : Nat) (hF : PF f) (hB : PB f) (hFo : PFo f) : PFo (f + 1) := by
+  intro lp ret S g env x itv body b t T σ henv hg hr hst hitv hb wt ht
+  have e1 := eq_of_eqv_bool hb
+  subst e1
+  simp only [forGo]
+  apply outP_bind lp ret S (fun S' v => VT S' (.tup [.bool, t]) v) _ _ _ σ
+    (hF lp ret S itv [] [] (.tup [.bool, t]) σ hst hitv.2 hitv.1 rfl (by simp [wf, wfL, wt]) ⟨by simp [asTypeL, matchesL], by simp⟩)
+  intro r σ1 S hle hst _ hr1
+  replace henv := envOk_mono hle henv
+  replace hitv := vt_mono hle hitv
+  obtain ⟨c, v, rfl, hc, hv⟩ := vt_pair hr1
+  obtain ⟨k, rfl⟩ := vt_bool hc
+  simp only []
+  cases k
+  · simp only [Bool.false_eq_true, if_false]; exact outP_pure _ _ _ _ _ _ hst vt_unit
+  · simp only [if_true]
+    have henvb : EnvOkG S ([(x, v), ("$con", .bool true)] :: env) ((x, t) :: ("$con", .bool) :: g) := by
+      have h1 := envOkG_insert ([] :: env) g "$con" (.bool true) .bool (envOkG_push env g henv) hc
+      have h2 := envOkG_insert _ _ x v t h1 hv
+      simpa [Env.insert] using h2
+    apply outP_bind lp ret S (fun _ _ => True) _ _ _ σ1
+      (hB lp ret S _ _ body T σ1 henvb (gwf_cons _ x t (gwf_cons g "$con" .bool hg rfl) wt) hr hst ht)
+    intro go σ2 S hle hst _ _
+    replace henv := envOk_mono hle henv
+    replace hitv := vt_mono hle hitv
+    cases go
+    · simp only [Bool.false_eq_true, if_false]; exact outP_pure _ _ _ _ _ _ hst vt_unit
+    · simp only [if_true]; exact hFo lp ret S g env x itv body .bool t T σ2 henv hg hr hst hitv hb wt ht
+
 /-- everything at once, for every amount of fuel -/
-theorem all_f : ∀ f : Nat, PE f ∧ PL f ∧ PO f ∧ PS f ∧ PSt f ∧ PV f ∧ PA f ∧ PC f ∧ PF f ∧ PB f ∧ PLp f ∧ PW f ∧ PWS f := by
+theorem all_f : ∀ f : Nat, PE f ∧ PL f ∧ PO f ∧ PS f ∧ PSt f ∧ PV f ∧ PA f ∧ PC f ∧ PF f ∧ PB f ∧ PLp f ∧ PW f ∧ PWS f ∧ PFo f := by
   intro f
   induction f with
   | zero =>
-    refine ⟨?_, ?_, ?_, ?_, ?_, ?_, ?_, ?_, ?_, ?_, ?_, ?_, ?_⟩
+    refine ⟨?_, ?_, ?_, ?_, ?_, ?_, ?_, ?_, ?_, ?_, ?_, ?_, ?_, ?_⟩
     · intro lp ret S g env e T σ _ _ _ _ _; simp [eval, throwS, OutP, okSig]
     · intro lp ret S g env es Ts σ _ _ _ _ _; simp [evalList, throwS, OutP, okSig]
     · intro lp ret S g env o ot σ _ _ _ _ _; simp [evalOpt, throwS, OutP, okSig]
@@ -458,10 +505,11 @@ theorem all_f : ∀ f : Nat, PE f ∧ PL f ∧ PO f ∧ PS f ∧ PSt f ∧ PV f 
     · intro lp ret S g env body T σ _ _ _ _ _; simp [loopGo, throwS, OutP, okSig]
     · intro lp ret S g env c body T σ _ _ _ _ _ _; simp [whileGo, throwS, OutP, okSig]
     · intro lp ret S g env x ty e body T1 T σ _ _ _ _ _ _ _; simp [whileSetGo, throwS, OutP, okSig]
+    · intro lp ret S g env x itv body b t T σ _ _ _ _ _ _ _ _; simp [forGo, throwS, OutP, okSig]
   | succ f ih =>
-    obtain ⟨hE, hL, hO, hS, hSt, hV, hA, hC, hF, hB, hLp, hW, hWS⟩ := ih
-    exact ⟨step_E f hE hL hS hA hO hF hLp hW hWS, step_L f hE hL, step_O f hE, step_S f hSt hS, step_St f hE hV, step_V f hE,
-      step_A f hE hC hA, step_C f hE hC, step_F f hS, step_B f hE, step_Lp f hB hLp, step_W f hE hB hW, step_WS f hE hB hWS⟩
+    obtain ⟨hE, hL, hO, hS, hSt, hV, hA, hC, hF, hB, hLp, hW, hWS, hFo⟩ := ih
+    exact ⟨step_E f hE hL hS hA hO hF hLp hW hWS hFo, step_L f hE hL, step_O f hE, step_S f hSt hS, step_St f hE hV, step_V f hE,
+      step_A f hE hC hA, step_C f hE hC, step_F f hS, step_B f hE, step_Lp f hB hLp, step_W f hE hB hW, step_WS f hE hB hWS, step_Fo f hF hB hFo⟩
 
 /-- **soundness and progress with functions, mutable cells and loops**: for an expression the checker model types, the
     reference evaluator - with any fuel, from any store `σ` that respects a store typing `S`, in any environment whose
@@ -497,7 +545,15 @@ theorem tySStmt_wf (lp : Bool) (ret : Option Ty) (g g' : TEnv) (s : Expr) (t : T
     obtain ⟨t', hte, h2⟩ := bind_ok h
     cases h2
     exact tyS_wf lp ret g e t hte
-  | destruct xs e => simp only [tySStmt] at h; cases h
+  | destruct xs e =>
+    simp only [tySStmt] at h
+    obtain ⟨te, hte, h2⟩ := bind_ok h
+    have wte := tyS_wf lp ret g e te hte
+    split at h2
+    · split at h2
+      · cases h2; exact wte
+      · cases h2
+    all_goals cases h2
   | fndecl x ps rt body =>
     simp only [tySStmt] at h
     split at h
@@ -580,5 +636,23 @@ example : tySProgram [] sampleSt = .ok .int := by
   simp [tySProgram, sampleSt, tySSeq, tySStmt, tyS, tySList, Res.bind, okW, binTy, TEnv.lookup, bindParams, wfParams, argsOk,
     lastTy, pairTy, accNum, accAddScalar, accAdd, concat, wf, wfL, membersOk, nodupL, memL, eqv, eqvL, sub, anyMatch, matchesL, allMatch, insertM,
     extendM, matchesParams, Spec.assignBase, helperRet]
+
+/-- non-vacuity for `for`, destructuring and a union-typed operand: a hand-written iterator over a counter cell, summed by a
+    `for` loop, the sum taken apart from a tuple, a value of type `[int] | string` indexed -/
+def sampleU : List Expr :=
+  [.set "n" (.mutE (some .int) (.litInt 0)),
+   .fndecl "it" [] (.tup [.bool, .int])
+     [.assign .add (.var "n") (.litInt 1),
+      .ret (some (.tuple [.bin .lt (.pre .deref (.var "n")) (.litInt 4), .pre .deref (.var "n")]))],
+   .set "acc" (.mutE (some .int) (.litInt 0)),
+   .forE "x" (.var "it") (.block [.assign .add (.var "acc") (.var "x")]),
+   .destruct ["a", "b"] (.tuple [.pre .deref (.var "acc"), .litStr "s"]),
+   .set "u" (.ifElse (.bin .gt (.var "a") (.litInt 3)) (.block [.array [.var "a"]]) (some (.block [.var "b"]))),
+   .at (.var "u") (.litInt 0)]
+
+example : tySProgram [] sampleU = .ok (.multi [.int, .str]) := by
+  simp [tySProgram, sampleU, tySSeq, tySStmt, tyS, tySList, Res.bind, okW, binTy, TEnv.lookup, bindParams, wfParams, argsOk,
+    lastTy, pairTy, accNum, accAddScalar, accAdd, concat, concatL, wf, wfL, membersOk, nodupL, memL, eqv, eqvL, sub, subL, anyMatch, matchesL, allMatch, insertM,
+    extendM, matchesParams, Spec.assignBase, helperRet, bindAll, canBeIndexed, indexResult, query, foldQ, joinO, isMulti, isNever]
 
 end Ssl.CS
